@@ -635,8 +635,14 @@ class Ctx:
             out = os.path.join(wd, "out-" + law)
             t0 = time.time()
             try:
+                # the apalache-mc launcher makes a SANY* directory under $TMPDIR for java.io.tmpdir and never removes it: keep it
+                # inside the run directory
+                env = dict(os.environ)
+                jt = os.path.join(wd, "jtmp-" + law)
+                os.makedirs(jt, exist_ok=True)
+                env["TMPDIR"] = jt
                 p = subprocess.run(["apalache-mc", "check", f"--inv={law}", "--length=0", f"--out-dir={out}", "AP_Laws.tla"],
-                                   cwd=wd, capture_output=True, text=True, timeout=timeout)
+                                   cwd=wd, capture_output=True, text=True, timeout=timeout, env=env)
                 txt = p.stdout + p.stderr
                 if "The outcome is: NoError" in txt:
                     results[law] = ("proved", time.time() - t0)
